@@ -12,7 +12,7 @@ finding), the others replay the table defects found by part jmap on the real rou
 import os, re, shutil
 from vlib import common, aldor
 from vlib.common import VERIF
-from checks.parts import jmap
+from checks.parts import jmap, jexpr
 
 NAME = "javasearch"
 BUILD_TARGETS = []
@@ -116,6 +116,8 @@ def classify(i, j):
         return "invalid"                     # compile-time rejection: not a program of the family
     if i["rc"] == "TIMEOUT":
         return "invalid"                     # the compiler / interpreter itself does not finish: not this property's subject
+    if j["stage"] == "javagen" and isinstance(i["rc"], int) and i["rc"] < 0 and j["rc"] == i["rc"]:
+        return "invalid"                     # the compiler is killed by the same signal on both routes, before any back end runs
     if j["rc"] == "TIMEOUT": return "timeout"
     if j["stage"] == "javagen": return "javagen-fail"
     if j["stage"] == "javac": return "javac-fail"
@@ -170,7 +172,7 @@ def shrink(build, foamj, text, name, q, kind, budget):
     return "\n".join(lines)
 
 # signatures that root_cause() recognises from the observed behaviour alone
-ROOT_SIGS = ("java|Globals.setGlobal-null", "java|javac-not-a-statement", "java|stdout-not-flushed")
+ROOT_SIGS = ("java|Globals.setGlobal-null", "java|javac-not-a-statement", "java|stdout-not-flushed", "java|javac-code-too-large")
 
 def root_cause(kind, i, j):
     """differences whose cause is recognisable from what the Java route prints get the cause as their
@@ -179,6 +181,8 @@ def root_cause(kind, i, j):
         return "java|Globals.setGlobal-null"
     if kind == "javac-fail" and "error: not a statement" in j["log"] and re.search(r"^\s*!.*\.toBool\(\);\s*$", j["log"], re.M):
         return "java|javac-not-a-statement"
+    if kind == "javac-fail" and "error: code too large" in j["log"]:
+        return "java|javac-code-too-large"       # one Java method per Aldor function / file level: > 64 KB of byte code
     if kind == "output-diff" and j["stage"] == "run":
         iout = strip_interp_noise(i["stdout"])
         if iout != j["stdout"] and (aldor.exit_class(i["rc"]) == "ok") == (aldor.exit_class(j["rc"]) == "ok") \
@@ -186,8 +190,17 @@ def root_cause(kind, i, j):
             return "java|stdout-not-flushed"       # exactly the text after the last newline is missing
     return None
 
-def report(ctx, build, foamj, pname, text, q, kind, i, j, shrink_budget):
+def report(ctx, build, foamj, pname, text, q, kind, i, j, shrink_budget, trees=None):
     sig = root_cause(kind, i, j) or "java|%s|Q%d|%s" % (pname, q, kind)
+    extra = ""
+    if trees is not None and kind == "output-diff":
+        # an expression program: which functions differ, and is it the recorded defect of the printer's table?
+        bad = jexpr.differing_functions(strip_interp_noise(i["stdout"]), j["stdout"])
+        shown = [jexpr.render(trees[k]) for k in bad if 0 <= k < len(trees)]
+        extra = " differing functions: " + "; ".join("f%d = %s" % (k, jexpr.render(trees[k])) for k in bad if 0 <= k < len(trees))[:600]
+        if bad and all(0 <= k < len(trees) and jexpr.table_defect(trees[k]) for k in bad):
+            sig = "jprint|table-inconsistent-with-java"
+        shrink_budget = 0
     small = text
     if shrink_budget and ctx._listed(sig) is None:
         try:
@@ -196,7 +209,7 @@ def report(ctx, build, foamj, pname, text, q, kind, i, j, shrink_budget):
             small = text
     ctx.finding(sig,
                 "program %s at -Q%d: Java route %s (interpreter: rc=%s, %d bytes of output; Java: stage %s rc=%s) %s" % (
-                    pname, q, kind, i["rc"], len(i["stdout"]), j["stage"], j["rc"], (j["log"] or j["stderr"])[-300:].replace("\n", " | ")),
+                    pname, q, kind, i["rc"], len(i["stdout"]), j["stage"], j["rc"], (j["log"] or j["stderr"])[-300:].replace("\n", " | ") + extra),
                 {"kind": kind, "program": pname, "Q": q, "source": small, "original_source": text if small != text else None,
                  "commands": j["commands"] + ["aldor <base> -Q%d -Ginterp %s.as" % (q, pname)],
                  "outputs": {"interp_rc": i["rc"], "interp_stdout": i["stdout"][-4000:], "interp_stderr": i["stderr"][-1500:],
@@ -274,10 +287,24 @@ def run_part(ctx, build):
         stats["generated"] = len(expected)
     except Exception as e:                      # noqa: the layer is optional
         stats["generated_skipped"] = "%s: %s" % (type(e).__name__, str(e)[:120])
+    # expression trees (checks/parts/jexpr.py): the systematic family (every operator under every operator, both
+    # sides, two leaf variants; the same in every run) and seeded random trees to depth 4
+    exprmeta = {}
+    etrees = jexpr.systematic(full=thorough)
+    rtrees = jexpr.random_trees(ctx.rng, 160 if thorough else 48)
+    for name, src, trees in jexpr.programs(etrees, prefix="expr") + jexpr.programs(rtrees, prefix="rexp"):
+        progs.append((name, src)); exprmeta[name] = trees
+    stats["expression_trees"] = {"systematic": len(etrees), "random": len(rtrees), "programs": len(exprmeta)}
     stats["programs"] = len(progs)
     jobs, keys = [], []
-    for pname, text in progs:
-        for q in ([int(x) for x in header(text, "Qs").split()] if header(text, "Qs") else QS):
+    def levels_of(pname, text, k):
+        if header(text, "Qs"): return [int(x) for x in header(text, "Qs").split()]
+        if pname in exprmeta and not thorough:
+            # nested builtin expressions exist from -Q3 on; at -Q1 the operators are library calls: every 4th program
+            return QS if k % 4 == 0 else QS[1:]
+        return QS
+    for k, (pname, text) in enumerate(progs):
+        for q in levels_of(pname, text, k):
             jobs.append((both, (build, foamj, text, pname, q), {})); keys.append((pname, text, q))
     res = aldor.run_many(jobs, workers=16)
     budget = 120 if thorough else 40
@@ -303,10 +330,11 @@ def run_part(ctx, build):
         if kind == "invalid":
             stats["invalid"] += 1
             ctx.notes.append("javasearch: program %s at Q%d is not in the family: %s" % (
-                pname, q, "the compiler does not finish within %d s" % TIMEOUT if i["rc"] == "TIMEOUT" else "rejected: " + i["stdout"][-200:]))
+                pname, q, "the compiler does not finish within %d s" % TIMEOUT if i["rc"] == "TIMEOUT" else
+                ("the compiler dies with signal %d on both routes" % -i["rc"] if isinstance(i["rc"], int) and i["rc"] < 0 else "rejected: " + i["stdout"][-200:])))
             continue
         stats["differ"][kind] = stats["differ"].get(kind, 0) + 1
-        report(ctx, build, foamj, pname, text, q, kind, i, j, budget)
+        report(ctx, build, foamj, pname, text, q, kind, i, j, budget, trees=exprmeta.get(pname))
         budget = max(0, budget - 40)
     # are the library jars shipped in the tree current?  (build products: a stale jar is reported in the
     # coverage, it is not a defect of the code)
